@@ -9,6 +9,7 @@ CONSTANTS
   MaxTicks = 1000
   MaxSendErrs = 1000
   MaxResults = 1000
+  BuCap = 1000
   FixF22 = FALSE
   KindSet = {"ok", "ne", "nr", "pe", "pp", "em"}
   GenHist = FALSE
